@@ -300,6 +300,39 @@ fn main() {
                 writeln!(out, "#stat {} {}", k, v).unwrap();
             }
         }
+        // C05: load::<U>(save::<T>(x)) over ordered pairs of zoo types (sampled), with schema checking
+        "xtype" => {
+            let mut stats: BTreeMap<String, u64> = BTreeMap::new();
+            let sel = selected(&reg, &a);
+            let mut r = Rng::new(name_seed(a.seed, "xtype", 0));
+            let n = sel.len();
+            let npairs = a.cases * 150;
+            for k in 0..npairs {
+                let i = r.below(n as u64) as usize;
+                // bias towards neighbours in the registry (similar types) and towards the same type
+                let j = match k % 4 { 0 => i, 1 => (i + 1 + r.below(4) as usize) % n, _ => r.below(n as u64) as usize };
+                let (et, eu) = (sel[i], sel[j]);
+                let v = et.current();
+                let memver = eu.current().max(v);
+                let (_wire, canon, res) = (et.gen_save)(&mut r, a.size.min(6), v, Kind::Plain);
+                let bytes = match res { Ok(b) => b, Err(_) => continue };
+                let reply = (eu.load)(Kind::Plain, memver, PASSWORD, &bytes);
+                let expected = (eu.schema_bytes)(v, 2);
+                writeln!(out, "(loadfile plain @{} {} {} {})\t{}", eu.name, memver, hex(&bytes), hex(&expected), reply).unwrap();
+                let class = if reply == "(err schema)" { "rejected".to_string() } else if reply.starts_with("(ok") { "accepted".to_string() } else { format!("other:{}", reply.trim_matches(|c| c == '(' || c == ')').replace(' ', "-")) };
+                writeln!(out, "(xload @{} @{} {})\t(ok {})", et.name, eu.name, v, class).unwrap();
+                *stats.entry(format!("xtype-{}", class.split(':').next().unwrap())).or_default() += 1;
+                if reply.starts_with("(panic") {
+                    writeln!(out, "!C05 cross-type-load-panic saved={} loaded={} bytes={} got={}", et.name, eu.name, hex(&bytes), reply).unwrap();
+                }
+                if i == j && !et.tags.contains(&"ignore") && reply != format!("(ok {} 0)", canon) {
+                    writeln!(out, "!C05 same-type-rejected type={} value={} got={}", et.name, canon, reply).unwrap();
+                }
+            }
+            for (k, v) in stats {
+                writeln!(out, "#stat {} {}", k, v).unwrap();
+            }
+        }
         // C03 / C18: cross-definition loading inside evolution families.
         //  up:   bytes written by the definition current at i (at version i), loaded by the definition current at j >= i
         //  down: bytes written by the definition current at n at an older version k, loaded by the definition current at k
